@@ -238,7 +238,7 @@ class Inliner:
             callee = t["callee"]
             self._rework = []
             pf = self.facts.fn(prov[b][0])
-            self._in_crate_iter_next = bool(pf is not None and pf.f.get("impl_trait") == "core::iter::Iterator" and pf.name == "next")
+            self._in_crate_iter_next = bool(pf is not None and (pf.f.get("impl_trait"), pf.name) in (("core::iter::Iterator", "next"), ("core::iter::DoubleEndedIterator", "next_back")))
             new = self._expand_adaptor(b, t, callee, locals_, blocks)
             if new or self._rework:
                 for nb in new or []:
@@ -268,7 +268,7 @@ class Inliner:
             if target_fn.path in chain:
                 self.recursive.append((chain, target_fn.path))
                 continue
-            if target_fn.f.get("impl_trait") == "core::iter::Iterator" and target_fn.name == "next" and self._writes_own_fields(target_fn):
+            if (target_fn.f.get("impl_trait"), target_fn.name) in (("core::iter::Iterator", "next"), ("core::iter::DoubleEndedIterator", "next_back")) and self._writes_own_fields(target_fn):
                 # an iterator type of the crate that is a state machine over its own fields: followed when the iterator
                 # is a local of the caller reached through `&mut local` (its field writes become writes of that local's
                 # fields, _resolve_local_pointers); checked once the whole body is in place
@@ -563,6 +563,35 @@ class Inliner:
                             r = pt(o["pl"]["l"], depth + 1)
             memo[x] = r
             return r
+        def ptf(x, depth=0):
+            """Like `pt`, and also through `&mut local.f` / `&mut (*p).f` (a closure capturing one field of an iterator
+            struct): (local, through a `&mut`?, [field projections])."""
+            q = pt(x)
+            if q is not None:
+                return (q[0], q[1], [])
+            if depth > 12:
+                return None
+            rv = only(x)
+            if rv is None:
+                return None
+            k = rv.get("k")
+            if k in ("ref", "addr"):
+                p = rv["pl"]["p"]
+                if p and p[0] == "*":
+                    base, rest = ptf(rv["pl"]["l"], depth + 1), p[1:]
+                else:
+                    base, rest = (rv["pl"]["l"], True, []), p
+                if base is None or not rest or not all(isinstance(e, dict) and "f" in e for e in rest):
+                    return None
+                return (base[0], base[1] and rv.get("mut") is not False, base[2] + copy.deepcopy(list(rest)))
+            if k == "use" and rv["op"].get("k") in ("copy", "move"):
+                pl = rv["op"]["pl"]
+                if not pl["p"]:
+                    return ptf(pl["l"], depth + 1)
+                o = self._agg_field(pl, only, pt, depth)
+                if o is not None and o.get("k") in ("copy", "move") and not o["pl"]["p"]:
+                    return ptf(o["pl"]["l"], depth + 1)
+            return None
         ints = ("int", "bool")
         # iterator types of the crate whose `next` steps its own fields: followed only when `self` is a local of this body;
         # accesses through `&mut self` then become accesses of that local's fields
@@ -572,6 +601,8 @@ class Inliner:
                 continue
             q = pt(selfl) if selfl < n else None
             tyq = (locals_[q[0]].get("ty") or {}) if q is not None else {}
+            if tyq.get("adt") == "core::iter::Rev" and tyq.get("peel", 0) == 0 and tyq.get("args") and path.endswith("::next_back"):
+                tyq = tyq["args"][0]      # `Rev` is modelled as the iterator it wraps (_expand_rev)
             if q is not None and tyq.get("k") == "adt" and tyq.get("peel", 0) == 0 and str(tyq.get("adt", "")).startswith(self.facts.crate + "::") and tyq.get("adt") not in self.HANDLES:
                 sm_locals.add(q[0])
             else:
@@ -598,6 +629,11 @@ class Inliner:
                     if q is not None and (tyq.get("k") in ints or (q[0] in sm_locals and len(x["p"]) >= 2 and isinstance(x["p"][1], dict) and "f" in x["p"][1])):
                         x["l"], x["p"] = q[0], x["p"][1:]
                         changed[0] = True
+                    elif q is None and sm_locals:
+                        q2 = ptf(x["l"])
+                        if q2 is not None and q2[2] and q2[0] in sm_locals:
+                            x["l"], x["p"] = q2[0], copy.deepcopy(q2[2]) + x["p"][1:]
+                            changed[0] = True
                 return
             for k2, v in x.items():
                 if k2 in ("ty", "callee", "fn", "targs", "argtys", "_blk", "_blocks"):
@@ -606,6 +642,12 @@ class Inliner:
         for blk in blocks:
             rewrite(blk["stmts"])
             rewrite(blk["term"])
+        # `opt.take()` through a pointer that only now resolved to a field of an iterator struct held in a local
+        if sm_locals:
+            for b in range(len(blocks)):
+                t = blocks[b]["term"]
+                if t["k"] == "call" and t.get("callee") and t["callee"].get("def") == "core::option::Option::<T>::take":
+                    self._expand_option_take(b, t, t["callee"], locals_, blocks)
         # `next(&mut it)` on a slice iterator held in a local: remember which local (the interpreter advances it in place
         # when it walks a known constant array)
         for blk in blocks:
@@ -1429,7 +1471,64 @@ class Inliner:
             return [nb0, nb0 + 1]
         return None
 
+    def _expand_rev(self, b, t, callee, locals_, blocks):
+        """`it.rev()` over an iterator type of this crate that implements DoubleEndedIterator: the `Rev` wrapper is modelled
+        as the iterator itself (its only field), and `next` on it is the crate's own `next_back` -- which is then followed
+        like any other `next` of the crate."""
+        if callee is None or not t["args"]:
+            return False
+        d = callee["def"]
+        span = {k: t.get(k) for k in ("file", "line", "exp", "macro")}
+        crate = self.facts.crate + "::"
+
+        def inner_of_rev(ty):
+            if ty and ty.get("adt") == "core::iter::Rev" and ty.get("peel", 0) == 0 and ty.get("args"):
+                i = ty["args"][0]
+                if (i.get("adt") or "").startswith(crate) and i.get("peel", 0) == 0 and self._next_back_of(i.get("adt")) is not None:
+                    return i
+            return None
+        a0 = t["args"][0]
+        if d == "core::iter::Iterator::rev" or d == "core::iter::IntoIterator::into_iter":
+            dty = locals_[t["dst"]["l"]]["ty"] if not t["dst"]["p"] else None
+            inner = inner_of_rev(dty)
+            aty = self._op_ty(a0, locals_)
+            if inner is None and d == "core::iter::Iterator::rev" and aty is not None and (aty.get("adt") or "").startswith(crate) \
+                    and aty.get("peel", 0) == 0 and self._next_back_of(aty.get("adt")) is not None and (callee.get("self_ty") or {}).get("adt") == aty.get("adt"):
+                inner = aty     # the destination was already retyped by a later stage looked at first
+            if inner is None or t["target"] is None or a0.get("k") != "move":
+                return False
+            if aty is None or not (aty.get("adt") == inner.get("adt") or inner_of_rev(aty) is not None):
+                return False
+            blocks[b]["stmts"].append({"k": "assign", "dst": copy.deepcopy(t["dst"]), "rv": {"k": "use", "op": copy.deepcopy(a0)}, **span})
+            blocks[b]["term"] = {"k": "goto", "target": t["target"], **span, "adaptor": "rev"}
+            # the wrapper local now holds the iterator itself
+            locals_[t["dst"]["l"]] = dict(locals_[t["dst"]["l"]], ty=copy.deepcopy(inner))
+            if not a0["pl"]["p"] and inner_of_rev(aty) is not None:
+                locals_[a0["pl"]["l"]] = dict(locals_[a0["pl"]["l"]], ty=copy.deepcopy(inner))
+            self._rework.append(b)
+            return True
+        if d == "core::iter::Iterator::next" and not callee.get("_rev_done"):
+            st = callee.get("self_ty")
+            inner = inner_of_rev(st)
+            if inner is None:
+                return False
+            f = self._next_back_of(inner.get("adt"))
+            t["callee"] = {"def": "core::iter::DoubleEndedIterator::next_back", "crate": "core", "full": "<%s as core::iter::DoubleEndedIterator>::next_back" % inner.get("s"),
+                           "local": False, "args": [inner.get("s")], "targs": [inner], "trait": "core::iter::DoubleEndedIterator", "self_ty": inner,
+                           "resolved": f.path, "resolved_crate": self.facts.crate, "rk": "item", "_rev_done": True}
+            self._rework.append(b)
+            return True
+        return False
+
+    def _next_back_of(self, adt):
+        for f in self.facts.fns.values():
+            if f.f.get("impl_trait") == "core::iter::DoubleEndedIterator" and f.name == "next_back" and (f.f.get("impl_self") or {}).get("adt") == adt:
+                return f
+        return None
+
     def _expand_adaptor(self, b, t, callee, locals_, blocks):
+        if self._expand_rev(b, t, callee, locals_, blocks):
+            return []
         if callee is not None and callee["def"] in ("core::cell::Cell::<T>::update", "core::cell::Cell::<T>::replace", "core::cell::Cell::<T>::take"):
             r = self._expand_cell(b, t, callee, locals_, blocks)
             if r is not None:
